@@ -199,7 +199,8 @@ impl BuildSystem {
 
         let commands = analyzer.analyze_project(&config.project_path)?;
 
-        if commands.is_empty() {
+        // A project that only emits events still gets its listeners
+        if commands.is_empty() && analyzer.get_discovered_events().is_empty() {
             self.logger
                 .info("No Tauri commands found. Skipping generation.");
             return Ok(vec![]);
